@@ -30,8 +30,10 @@ LoadOutcome checked_load(const uint8_t* win, size_t n, const LoadOpts& o, MV* tr
   uint64_t live_before = sa_live_sig(); uint64_t live_before_n = sa_live_count();
   const uint64_t SENT = 0xA5A5A5A5A5A5A5A5ull;
   struct cbor_load_result res; memset(&res, 0xA5, sizeof res);
+  auto lib = [&](const std::function<void()>& f) { if (o.runner) o.runner(f); else f(); };
   sa_begin(o.fault);
-  cbor_item_t* item = cbor_load(w, n, &res);
+  cbor_item_t* item = nullptr;
+  lib([&]() { item = cbor_load(w, n, &res); });
   OpWindow ow = sa_end();
   out.requests = ow.requests; out.refused = ow.refused;
   out.item = item != nullptr; out.read = res.read; out.code = (int)res.error.code; out.position = res.error.position;
@@ -53,18 +55,32 @@ LoadOutcome checked_load(const uint8_t* win, size_t n, const LoadOpts& o, MV* tr
       if (!failed() && o.post_ops) {
         unsigned char* buf = nullptr; size_t bs = 0;
         sa_begin(FaultSpec());
-        size_t wr = cbor_serialize_alloc(item, &buf, &bs);
+        size_t wr = 0; lib([&]() { wr = cbor_serialize_alloc(item, &buf, &bs); });
         sa_end();
         std::vector<uint8_t> exp = ref_encode(ref.tree);
         if (wr != exp.size() || bs != exp.size() || !buf || memcmp(buf, exp.data(), exp.size()) != 0)
           fail("C03", "decoded-tree-serialises-differently", where + fmt(": serialised %zu byte(s), reference encoding has %zu", wr, exp.size()));
         if (buf) sa_client_free(buf);
+        if (!failed() && o.deep_post) {
+          // the rest of the pipeline a client runs on a decoded tree: describe, size, serialize into its own buffer, copy, release the copy
+          size_t sz = 0, wr2 = 0; cbor_item_t* cp = nullptr; unsigned char* b2 = (unsigned char*)malloc(exp.size() + 1);
+          uint64_t lsig = sa_live_sig();
+          sa_begin(FaultSpec());
+          lib([&]() { FILE* f = fopen("/dev/null", "w"); if (f) { cbor_describe(item, f); fclose(f); } sz = cbor_serialized_size(item); wr2 = cbor_serialize(item, b2, exp.size()); cp = cbor_copy(item); });
+          sa_end();
+          if (sz != exp.size() || wr2 != exp.size() || memcmp(b2, exp.data(), exp.size()) != 0) fail("C03", "decoded-tree-serialises-differently", where + ": size/serialize disagree with the reference encoding");
+          free(b2);
+          std::string why2;
+          if (!cp) fail("C19,C11", "copy-of-decoded-tree-fails", where + ": cbor_copy returned NULL without any refused allocation");
+          else { if (!impl_equals(cp, ref.tree, why2)) fail("C11", "copy-differs", where + ": " + why2); sa_begin(FaultSpec()); lib([&]() { cbor_decref(&cp); }); sa_end(); }
+          if (!failed() && sa_live_sig() != lsig) fail("C04,C19", "pipeline-leaves-blocks", where + ": describe/size/serialize/copy/release of the decoded tree left blocks allocated");
+        }
       }
       if (tree_out) *tree_out = ref.tree;
     }
     // release; everything must go
     sa_begin(FaultSpec());
-    cbor_decref(&item);
+    lib([&]() { cbor_decref(&item); });
     sa_end();
     if (item != nullptr) fail("C04", "decref-does-not-null", where + ": decref of the only reference left the pointer set");
     if (sa_live_sig() != live_before) fail("C04", "release-leaves-blocks", where + fmt(": %llu block(s) live after releasing the decoded item, %zu before the call", (unsigned long long)sa_live_count(), (size_t)live_before_n));
